@@ -81,3 +81,66 @@ Theorem C09_channel_handover_global :
        exec_micro e2 b (MRecvPost h lg) = MOk e3 -> vle (caus_of e a) (caus_of e3 b).
 Proof. exact channel_handover_global. Qed.
 Print Assumptions C09_channel_handover_global.
+
+(* ==== appended by tools/mkprops.py (APPEND table) ==== *)
+
+Require Import LV.Base LV.VV LV.VVFacts LV.Path LV.PathSpec LV.PathTerm LV.PathDistinct LV.PathApi LV.Prog LV.Objects LV.Exec LV.Atomic LV.Ops LV.Check LV.CountFacts.
+
+(* Counting invariants over whole runs (CountFacts.v) *)
+(* EVERY run of EVERY program: runtime message count = number of queued views = length of the std queue (while the receiver lives) *)
+Theorem C09_run_chan_inv :
+  forall (fuel : nat) (p : prog) (pa : path), chan_inv (fst (run fuel (init_exec p pa))).
+Proof. exact run_chan_inv. Qed.
+Print Assumptions C09_run_chan_inv.
+
+(* a send appends exactly its value at the back *)
+Theorem C09_send_appends_one :
+  forall (e : exec) (me h : nat) (v : N) (e' : exec),
+       exec_micro e me (MSendPost h v) = MOk e' ->
+       ho_rx (get_h e h) = true ->
+       ho_q (get_h e' h) = ho_q (get_h e h) ++ [v] /\
+       (exists s s' : chan_state,
+          get_chan e h = Some s /\ get_chan e' h = Some s' /\ ch_cnt s' = S (ch_cnt s)).
+Proof. exact send_appends_one. Qed.
+Print Assumptions C09_send_appends_one.
+
+(* a receive removes exactly the front value and returns it *)
+Theorem C09_recv_removes_front :
+  forall (e : exec) (me : nat) (t : thread) (h : nat) (e' : exec),
+       get_thread e me = Some t ->
+       exec_micro e me (MRecvPost h true) = MOk e' ->
+       exists (v : N) (q : list N),
+         ho_q (get_h e h) = v :: q /\
+         ho_q (get_h e' h) = q /\ e_log e' = LOp (t_body t) (t_pc t) (RVal v) :: e_log e.
+Proof. exact recv_removes_front. Qed.
+Print Assumptions C09_recv_removes_front.
+
+(* every micro-step leaves a queue unchanged, appends one value or removes the front: no loss, no duplication, no reordering *)
+Theorem C09_queue_step_shape :
+  forall (e : exec) (me : nat) (t : thread) (m : micro) (rest : list micro) (h : nat),
+       base_inv e ->
+       nth_error (e_threads e) me = Some t ->
+       t_cont t = m :: rest ->
+       qshape (ho_q (get_h e h))
+         (ho_q (get_h (ExecFacts.res_exec (exec_micro (pop e me rest) me m)) h)).
+Proof. exact queue_step_shape. Qed.
+Print Assumptions C09_queue_step_shape.
+
+(* FIFO over any number of steps *)
+Theorem C09_steps_queue_fifo :
+  forall (e e' : exec) (h : nat),
+       SyncMono.steps e e' ->
+       base_inv e ->
+       exists (n : nat) (l : list N), ho_q (get_h e' h) = skipn n (ho_q (get_h e h)) ++ l.
+Proof. exact steps_queue_fifo. Qed.
+Print Assumptions C09_steps_queue_fifo.
+
+(* when the runtime lets a receive proceed the std queue is not empty *)
+Theorem C09_recv_never_empty_handed :
+  forall (e : exec) (me h : nat) (lg : bool),
+       chan_inv e ->
+       ho_rx (get_h e h) = true ->
+       forall e2 : exec, exec_micro e me (MRecvPost h lg) <> MFail e2 (PanicModel 20).
+Proof. exact recv_never_empty_handed. Qed.
+Print Assumptions C09_recv_never_empty_handed.
+
